@@ -5,12 +5,19 @@ import vcommon as V, evolve, c06
 mm=evolve.load()
 name=sys.argv[1]; checks=sys.argv[2:]
 model=dict(evolve.systematic(mm))[name]
+base_unions=set()
+try:
+    base_unions={u.replace(" ","") for u in json.load(open(os.path.join(V.GEN,"pkg.json"))).get("unions",[])}
+except Exception as e:
+    print("no base unions", e)
 with V.scratch("c06t-") as d:
     tree,crashes=c06.make_copy(name,model,d)
     print('crashes',crashes)
     for c in checks:
-        s=c06.run_subcheck(tree,c,0)
+        s=c06.run_subcheck(tree,c,int(os.environ.get("VERIF_SEED","0")))
         print(c, s['rc'], s['violations'][:2])
         r=s.get('replay') or {}
         print(json.dumps({k:r.get(k) for k in ('kind','broken','input','missing_handlers')})[:3000])
+        if s['rc']:
+            print('KEYS', c06.finding_keys(s, base_unions))
     import shutil; shutil.rmtree(c06.build_dir_of(tree),ignore_errors=True)
